@@ -49,7 +49,7 @@ MACROS = ['nat_eval', 'int_eval', 'int_const_ineq', 'real_eval', 'real_const_eq'
 
 
 def bounds(tier):
-    return {'macros': MACROS + ['real_eq_comparison'], 'ground_goals': 'depth-1 sides exhaustively; depth-2 sides %d seeded goals per type' % (900 if tier == 'quick' else 40000),
+    return {'macros': MACROS + ['real_eq_comparison'], 'ground_goals': 'depth-1 sides exhaustively; casts of_nat / of_int of every depth-1 expression against -4..4; depth-2 sides %d seeded goals per type' % (900 if tier == 'quick' else 40000),
             'poly_goals': 400 if tier == 'quick' else 8000, 'fp_templates': FP_TEMPLATES, 'fp_numeral_bits': 8, 'fp_timeout_s': 30 if tier == 'quick' else 400, 'fp_solvers': 'z3 5.1 and cvc5 1.0.3 binaries concurrently, first definitive answer', 'fp_queries': 'quick: template 0 all relations, template 1 < >, template 3 <; thorough: all'}
 
 
@@ -174,8 +174,37 @@ def check_goal(macro, goal, out, rec):
         out['inconclusive'] += 1
 
 
+def cast_exprs(Tn):
+    """Casts of nat / int expressions of depth <= 1 into Tn ('int' | 'real'), followed by the numerals -4..4 they are compared with."""
+    key = ('cast', Tn)
+    if key in _E:
+        return _E[key]
+    from kernel.type import IntType, RealType
+    from kernel import term as T
+    from kernel.term import Number
+    ty = {'int': IntType, 'real': RealType}[Tn]
+    casts = [T.of_nat(ty)(a) for a in exprs('nat', 1)]
+    if Tn == 'real':
+        casts += [T.of_int(ty)(a) for a in exprs('int', 1)[:60]]
+    nums = [Number(ty, k) for k in range(-4, 5)]
+    _E[key] = (casts, nums)
+    return _E[key]
+
+
 def run_ground(u, out):
     _, tier, seed, Tn, mode, lo, hi = u
+    if mode == 'cast':
+        casts, nums = cast_exprs(Tn)
+        for i in range(lo, min(hi, len(casts))):
+            for j, c in enumerate(nums):
+                for r in ('eq', 'less', 'less_eq', 'greater'):
+                    goal = mk_goal(r, casts[i], c)
+                    for m in MACROS:
+                        check_goal(m, goal, out, {'part': 'ground', 'type': Tn, 'depth': 'cast', 'i': i, 'j': j, 'rel': r, 'macro': m})
+            if len(out['cex']) >= 30:
+                break
+        out['samples'].append({'goal': str(mk_goal('eq', casts[lo], nums[0])), 'macros': 'all %d' % len(MACROS)})
+        return
     if mode == 'd1':
         es = exprs(Tn, 1)
         pairs = [(i, j) for i in range(lo, min(hi, len(es))) for j in range(len(es))]
@@ -268,6 +297,11 @@ def poly_goal_list(p, q, n):
         if e.is_plus() or e.is_minus() or e.is_times():
             return getattr(T, 'plus' if e.is_plus() else 'minus' if e.is_minus() else 'times')(RealType)(push(e.arg1), push(e.arg))
         return T.of_nat(RealType)(e)
+    # quotients of equal polynomials: p / p' = 1 is false wherever p vanishes (x / 0 = 0)
+    one = T.Number(RealType, 1)
+    pc = T.plus(RealType)(p.arg, p.arg1) if p.is_plus() else (T.times(RealType)(p.arg, p.arg1) if p.is_times() else p)
+    goals.append(('real_norm', Eq(T.divides(RealType)(p, pc), one)))
+    goals.append(('real_norm', Eq(T.plus(RealType)(q, T.divides(RealType)(p, p)), T.plus(RealType)(q, one))))
     goals.append(('real_norm', Eq(T.of_nat(RealType)(ne), push(ne))))
     goals.append(('real_norm', Eq(T.plus(RealType)(T.of_nat(RealType)(ne), p), T.plus(RealType)(p, push(ne)))))
     return goals
@@ -627,6 +661,10 @@ def units(tier, seed):
         total = 900 if tier == 'quick' else 40000
         for lo in range(0, total, per):
             us.append(('ground', tier, seed, Tn, 'd2', lo, lo + per))
+    for Tn in ('int', 'real'):
+        nc = len(cast_exprs(Tn)[0])
+        for lo in range(0, nc, 8):
+            us.append(('ground', tier, seed, Tn, 'cast', lo, lo + 8))
     total = 400 if tier == 'quick' else 8000
     for lo in range(0, total, 50):
         us.append(('poly', tier, seed, lo, lo + 50))
@@ -664,8 +702,12 @@ def replay(c):
         return replay_fp(c)
     if c.get('part') == 'poly':
         return replay_poly(c)
-    es = exprs(c['type'], c['depth'])
-    goal = mk_goal(c['rel'], es[c['i']], es[c['j']])
+    if c['depth'] == 'cast':
+        casts, nums = cast_exprs(c['type'])
+        goal = mk_goal(c['rel'], casts[c['i']], nums[c['j']])
+    else:
+        es = exprs(c['type'], c['depth'])
+        goal = mk_goal(c['rel'], es[c['i']], es[c['j']])
     th = one_step(c['macro'], goal)
     if th is None:
         return False, 'rejected'
